@@ -199,6 +199,10 @@ impl From<cid::Error> for P2pError {
     }
 }
 
+#[cfg(eigerco_lumina_verif)]
+#[path = "p2p_verif_hooks.rs"]
+pub mod verif_hooks;
+
 /// Component responsible for the peer to peer networking handling.
 #[derive(Debug)]
 pub(crate) struct P2p {
